@@ -203,6 +203,18 @@ def r2(repo, res):
         if (v if k == "return" else k) != "4+rs3":
             ok = False
             names = names + [f"an added function-altering variant that no allele defines is shown as {v!r}, expected '4+rs3'"]
+        # display format (a documented profile parameter): spelling differs, content does not -- a copy without novel core variants
+        # is shown by its major name alone, one with novel core variants names the major allele and each of them (not the silent ones)
+        me_d = Obj(solution=sol, major_solution=Obj(cn_solution=Obj(gene=gene)), profile=Obj(display_format=True), diplotype=[[0], [1]])
+        shown_d = []
+        for i in (0, 1):
+            k, v = Evaluator({"self": me_d, "i": i}).run(body(gm))
+            shown_d.append(v if k == "return" else k)
+        okd_ = (shown_d[0] == "4" and isinstance(shown_d[1], str) and re.search(r"(?<![\w.])68(?![\w#.])", shown_d[1]) is not None
+                and "rs1" in shown_d[1] and "rs2" not in shown_d[1] and "#" not in shown_d[1])
+        if not okd_:
+            ok = False
+            names = names + [f"display format: copies shown as {shown_d!r}; expected '4' and a name holding 68 and rs1 (not rs2, no fusion suffix)"]
         # fusion suffixes as the shipped databases spell them: digits, digits + letter, sub-allele numbers, generated names
         table = {"4": "4", "68#2": "68", "79#4C": "79", "78#4.021": "78", "13#4.021.ALDY_2": "13", "80#12.002": "80", "4.ALDY_2": "4.ALDY_2", "36#10#2": "36"}
         shown = {}
@@ -258,6 +270,8 @@ MUTANTS = [
          old="        elif len(solution.solution) == 1:\n            major_dict[del_allele].append(-1)", new="        elif len(solution.solution) == 1:\n            pass"),
     dict(name="R1 zero copies: early return without deletion placeholders (seed C11_e1)", module="diplotype", expect="C11.R1",
          old="    del_allele = gene.deletion_allele()\n", new="    if not solution.solution:\n        solution.set_diplotype([[], []])\n        return solution.diplotype\n    del_allele = gene.deletion_allele()\n"),
+    dict(name="R2 display format drops the novel core variants (automutate survivor)", module="solutions", expect="C11.R2",
+         old="        elif len(n) == 1:\n            return n[0]", new="        elif len(n) != 1:\n            return n[0]"),
     dict(name="R1 all copies may stay on one haplotype", module="diplotype", expect="C11.R1",
          old="    if len(diplotype[1]) == 0:\n        if len(diplotype[0]) > 1:", new="    if len(diplotype[1]) == 0 and False:\n        if len(diplotype[0]) > 1:"),
     dict(name="R1 duplicate group drops a copy", module="diplotype", expect="C11.R1",
